@@ -112,6 +112,19 @@ def main(tier="quick", seed=0):
     if missing:
         raise tlc.MachineryError("pool strategies exported but not registered in harness/zoo.py: %s" % missing)
     ENTRIES.update({e.name: e for e in zoo.entries()})
+    # the loop through the sub-sampling wrapper (fractional and absolute sub-sample sizes; the fraction of a
+    # shrinking pool must never round down to an empty sub-sample)
+    from skactiveml.pool import SubSamplingWrapper
+
+    for inner_name in ("RandomSampling", "UncertaintySampling(entropy)"):
+        inner = ENTRIES[inner_name]
+        for mc in (0.1, 0.3, 2):
+            for excl in (False, True):
+                def make(seed, ml=np.nan, classes=(0, 1), inner=inner, mc=mc, excl=excl):
+                    return SubSamplingWrapper(inner.make(seed, ml, classes), max_candidates=mc,
+                                              exclude_non_subsample=excl, missing_label=ml, random_state=seed)
+                nm = "SubSamplingWrapper(%s,max_candidates=%s,exclude_non_subsample=%s)" % (inner_name, mc, excl)
+                ENTRIES[nm] = zoo.Entry(nm, "SubSamplingWrapper", make, inner.model, selection="sampling", cost=3)
     chk.model_check("ALLoop", "MC_ALLoop.cfg" if quick else "MC_ALLoop_thorough.cfg")
     scenarios = [s for s in chk.generate("PoolGen", "PoolGen.cfg") if s["mode"] == "none" and s["n"] >= 3]
     if not quick:
@@ -123,6 +136,8 @@ def main(tier="quick", seed=0):
         pick = [scenarios[int(i)] for i in rng.choice(len(scenarios), size=min(k, len(scenarios)), replace=False)]
         pick += [dict(x, mode="none", S=[]) for x in pc.random_scenarios(rng, max(2, k // 3), 5, 9)]
         for n_, sc in enumerate(pick):
+            if e.cls_name == "SubSamplingWrapper":
+                sc = dict(sc, bs=1)     # (a batch can only be filled from the sub-sample: one sample per query)
             jobs.append((e.name, sc, int(rng.integers(0, 1000)), n_ % 3))
     traces = pmap(_job, jobs, chunksize=2)
     chk.count(len(traces))
